@@ -412,8 +412,18 @@ class AnsiString:
                         del settings_point.rem[i]
 
                 if idx == end:
-                    if end != len(self._s):
-                        settings_point.add += removed_settings
+                    if end != len(self._s) and removed_settings:
+                        # Restart the removed settings at their original position in the stack: everything that
+                        # was stacked above the lowest of them is re-stacked here in its original order
+                        first = min(__class__._find_setting_reference(s, current_settings) for s in removed_settings)
+                        restack = current_settings[first:]
+                        for s in restack:
+                            if (
+                                __class__._find_setting_reference(s, removed_settings) < 0
+                                and __class__._find_setting_reference(s, settings_point.add) < 0
+                            ):
+                                settings_point.rem.append(s)
+                        settings_point.add = list(restack)
                 else:
                     for i in reversed(range(len(settings_point.add))):
                         if ansi_settings is None or settings_point.add[i] in ansi_settings:
